@@ -805,17 +805,114 @@ impl TextBig {
     }
 }
 
+impl TextBig {
+    /// 65 900 different two-unit characters (260 x 260 pairs over two pools of pairwise different
+    /// units) in one text diff: old = S X S[..400], new = S Y with |S| = 60 000, |X| = 2 900,
+    /// |Y| = 3 000; each side has fewer than 65 536 tokens, together more than 65 536 different
+    /// ones, and the old text ends in a second copy of its first 400 tokens (an id that wraps
+    /// around collides with one of them).
+    fn run_huge(&self, s: &BigShape) -> String {
+        let leads: Vec<Sym> = (0..260).map(|_| symtxt::fresh_char(symtxt::Class::Lead)).collect();
+        let conts: Vec<Sym> = (0..260).map(|_| symtxt::fresh_char(symtxt::Class::Cont)).collect();
+        engine::assume(&F::Distinct(leads.iter().map(|x| x.0).collect()));
+        engine::assume(&F::Distinct(conts.iter().map(|x| x.0).collect()));
+        for x in leads.iter().chain(conts.iter()) {
+            engine::set_hash_class(x.0, x.0 as u64);
+        }
+        let push = |v: &mut Vec<Sym>, t: usize| {
+            v.push(leads[t / 260]);
+            v.push(conts[t % 260]);
+        };
+        let (mut old, mut new): (Vec<Sym>, Vec<Sym>) = (vec![], vec![]);
+        for t in 0..62_900 {
+            push(&mut old, t);
+        }
+        for t in 0..400 {
+            push(&mut old, t);
+        }
+        for t in (0..60_000).chain(62_900..65_900) {
+            push(&mut new, t);
+        }
+        let (ot, nt) = (SymTxt::new(&old), SymTxt::new(&new));
+        let shape = Shape { old: String::new(), new: String::new(), tok: Tok::Chars, alg: s.alg, nl_override: None };
+        let diff = make_diff(&shape, ot, nt);
+        let olds = diff.old_slices().to_vec();
+        let news = diff.new_slices().to_vec();
+        let ops = diff.ops().to_vec();
+        claim!(olds.len() == 63_300 && news.len() == 63_000, "tokenize_chars gives {} / {} tokens", olds.len(), news.len());
+        engine::witness("paths_above_the_threshold");
+        engine::witness("paths_with_more_than_255_different_tokens");
+        engine::witness("paths_with_more_than_65536_different_tokens");
+        engine::witness("paths_with_changes");
+        let same = |a: &SymTxt, b: &SymTxt| a.chars().len() == b.chars().len() && a.chars().iter().zip(b.chars()).all(|(x, y)| x.0 == y.0);
+        // the ops are a valid edit script whose Equal ops pair equal tokens
+        let (mut oi, mut ni) = (0usize, 0usize);
+        for op in &ops {
+            let (tag, or, nr) = op.as_tag_tuple();
+            claim!(or.start == oi && nr.start == ni && or.end <= olds.len() && nr.end <= news.len(), "65 900 different tokens: op {:?} does not start at {}/{}", op, oi, ni);
+            if tag == DiffTag::Equal {
+                claim!(or.len() == nr.len() && !or.is_empty(), "65 900 different tokens: malformed {:?}", op);
+                for k in 0..or.len() {
+                    if !same(olds[oi + k], news[ni + k]) {
+                        engine::must_hold(&txt_eq(olds[oi + k], news[ni + k]), &format!("65 900 different tokens: {:?} pairs different tokens old[{}] / new[{}]", op, oi + k, ni + k));
+                    }
+                }
+            }
+            oi = or.end;
+            ni = nr.end;
+        }
+        claim!(oi == olds.len() && ni == news.len(), "65 900 different tokens: the ops end at {}/{} of {}/{}", oi, ni, olds.len(), news.len());
+        let equal: usize = ops.iter().filter(|o| o.tag() == DiffTag::Equal).map(|o| o.old_range().len()).sum();
+        claim!(equal == 60_000, "65 900 different tokens: {} tokens reported equal, the texts have exactly their first 60 000 tokens in common", equal);
+        if self.0 == 1 {
+            // C04's walk: non-Insert values are the old tokens in order, non-Delete the new ones
+            let (mut oi, mut ni) = (0usize, 0usize);
+            for (k, c) in diff.iter_all_changes().enumerate() {
+                match c.tag() {
+                    ChangeTag::Equal => {
+                        claim!(c.old_index() == Some(oi) && c.new_index() == Some(ni) && oi < olds.len() && ni < news.len(), "65 900 different tokens: change #{} Equal carries {:?}/{:?}", k, c.old_index(), c.new_index());
+                        claim!(same_slice(c.value(), olds[oi]), "65 900 different tokens: change #{} Equal does not carry old token {}", k, oi);
+                        if !same(olds[oi], news[ni]) {
+                            engine::must_hold(&txt_eq(olds[oi], news[ni]), &format!("65 900 different tokens: change #{} Equal stands for different tokens old[{}] / new[{}]: the new text is not reconstructed", k, oi, ni));
+                        }
+                        oi += 1;
+                        ni += 1;
+                    }
+                    ChangeTag::Delete => {
+                        claim!(c.old_index() == Some(oi) && c.new_index().is_none() && oi < olds.len() && same_slice(c.value(), olds[oi]), "65 900 different tokens: change #{} Delete is not old token {}", k, oi);
+                        oi += 1;
+                    }
+                    ChangeTag::Insert => {
+                        claim!(c.new_index() == Some(ni) && c.old_index().is_none() && ni < news.len() && same_slice(c.value(), news[ni]), "65 900 different tokens: change #{} Insert is not new token {}", k, ni);
+                        ni += 1;
+                    }
+                }
+            }
+            claim!(oi == olds.len() && ni == news.len(), "65 900 different tokens: the changes cover {}/{} tokens", oi, ni);
+        }
+        format!("{} ops, {} equal", ops.len(), equal)
+    }
+}
+
 impl Prop for TextBig {
     type Shape = BigShape;
     fn id(&self) -> &'static str {
         match self.0 {
             1 => "C04b",
             2 => "C17b",
+            3 => "C02b",
             _ => "C14b",
         }
     }
     fn shapes(&self, tier: Tier) -> Vec<BigShape> {
         let mut v = vec![];
+        // one text diff with more than 65 536 different tokens (encoded as skel = 100 000)
+        if self.0 != 2 {
+            v.push(BigShape { alg: Algorithm::Myers, tok: Tok::Chars, skel: 100_000, old_extra: vec![], new_extra: vec![] });
+        }
+        if self.0 == 3 {
+            return v;
+        }
         let ex = all_extras();
         let mut combos: Vec<(Vec<Extra>, Vec<Extra>)> = vec![(vec![], vec![])];
         for e in &ex {
@@ -897,6 +994,9 @@ impl Prop for TextBig {
         // replays keep the class-based hash of the symbolic tokens (lawful: equal tokens share a
         // class; coarser than Eq): a result that treats equal hashes as equal tokens reproduces
         engine::keep_constant_hash_in_replay();
+        if s.skel >= 100_000 {
+            return self.run_huge(s);
+        }
         if s.skel >= 1000 {
             return self.run_disjoint(s);
         }
@@ -1063,10 +1163,14 @@ impl Prop for TextBig {
                 "similar::TextDiffConfig::diff (the `old.len() > 100 || new.len() > 100` branch): IdentifyDistinct::<u32>::new over &SymTxt tokens + capture_diff_deadline over the integer lookups",
                 "similar::capture_diff_slices over the same tokens (the reference)",
             ],
-            bounds: format!("token counts on both sides of the threshold: a shared skeleton of 99 / 100 / 101 / 103 pairwise-different tokens plus up to 2 extra tokens at the front / middle / end of either side ({}), each extra either a fresh symbolic token or a copy of the first / middle / last skeleton token; plus two inputs of 130 tokens a side with more than 255 different tokens in total; plus tails of up to three tokens over (copy of the first skeleton token, one shared fresh token) appended to both sides; char tokens and line tokens; 3 algorithms (LCS and line tokens: at most one extra)", match tier { Tier::Quick => "a third of the two-extra combinations", Tier::Thorough => "all two-extra combinations" }),
+            bounds: format!("token counts on both sides of the threshold: a shared skeleton of 99 / 100 / 101 / 103 pairwise-different tokens plus up to 2 extra tokens at the front / middle / end of either side ({}), each extra either a fresh symbolic token or a copy of the first / middle / last skeleton token; plus two inputs of 130 tokens a side with more than 255 different tokens in total; plus (C14b / C04b / C02b) one Myers character diff with 65 900 different tokens - 63 300 against 63 000 two-unit characters over two pools of 260 pairwise different units, the first 60 000 in common, the old text ending in a second copy of its first 400 tokens: valid script, Equal ops pair equal tokens, exactly 60 000 equal, C04's walk over iter_all_changes; plus tails of up to three tokens over (copy of the first skeleton token, one shared fresh token) appended to both sides; char tokens and line tokens; 3 algorithms (LCS and line tokens: at most one extra)", match tier { Tier::Quick => "a third of the two-extra combinations", Tier::Thorough => "all two-extra combinations" }),
             outside: "fresh extra tokens are assumed different from every skeleton token (coinciding is covered only by the explicit 'copy' kinds); unstructured inputs above the threshold (path explosion); other tokenizers above the threshold (the code path does not depend on the tokenizer)".into(),
             assumptions: vec!["class-based Hash for this family (skeleton token i -> i, fresh tokens -> one class), lawful under the stated assumption; native re-executions keep this hash (an item type whose Hash is coarser than its Eq)".into()],
-            required_witnesses: vec!["paths_above_the_threshold", "paths_at_or_below_the_threshold", "paths_with_changes", "paths_with_more_than_255_different_tokens"],
+            required_witnesses: match self.0 {
+                3 => vec!["paths_with_more_than_65536_different_tokens"],
+                2 => vec!["paths_above_the_threshold", "paths_at_or_below_the_threshold", "paths_with_changes", "paths_with_more_than_255_different_tokens"],
+                _ => vec!["paths_above_the_threshold", "paths_at_or_below_the_threshold", "paths_with_changes", "paths_with_more_than_255_different_tokens", "paths_with_more_than_65536_different_tokens"],
+            },
             rule: "one state = one explored path for one skeleton shape".into(),
         }
     }
